@@ -375,8 +375,27 @@ func runPrims(c *hlib.Ctx) {
 		p := randPrim(c)
 		var wrapped render3d.Object
 		var direct prim
-		how := c.Rng.Intn(4)
+		how := c.Rng.Intn(6)
+		if how >= 4 && p.kind == 0 {
+			p.kind = 1 + c.Rng.Intn(2) // no ellipsoid primitive to compare an anisotropically scaled sphere with
+			p = randPrim(c)
+			for p.kind == 0 {
+				p = randPrim(c)
+			}
+		}
 		switch how {
+		case 4: // anisotropic scale (positive powers of two along the axes)
+			m := &model3d.Matrix3{math.Abs(pow2(c)), 0, 0, 0, math.Abs(pow2(c)), 0, 0, 0, math.Abs(pow2(c))}
+			wrapped = render3d.MatrixMultiply(p.object(0), m)
+			direct = p.mapped(func(x model3d.Coord3D) model3d.Coord3D { return m.MulColumn(x) }, 1)
+		case 5: // shear with determinant 1 (integer entries: the inverse is exact)
+			m := &model3d.Matrix3{1, float64(c.Rng.Intn(3)), 0, 0, 1, float64(c.Rng.Intn(3) - 1), 0, 0, 1}
+			if p.kind == 1 {
+				p.kind = 2
+				p.d = p.a.Add(model3d.XYZ(1, 0.5, -0.75))
+			}
+			wrapped = render3d.MatrixMultiply(p.object(0), m)
+			direct = p.mapped(func(x model3d.Coord3D) model3d.Coord3D { return m.MulColumn(x) }, 1)
 		case 0:
 			off := model3d.XYZ(c.Dyadic(4, 2), c.Dyadic(4, 2), c.Dyadic(4, 2))
 			wrapped = render3d.Translate(p.object(0), off)
